@@ -11,16 +11,19 @@ import (
 )
 
 type c33Expect struct {
-	Kind   string `json:"kind"` // route | file
-	Redir  string `json:"redir"`
-	Pos    string `json:"pos"`
-	Stdout string `json:"stdout"`
-	Stderr string `json:"stderr"`
-	File   string `json:"file,omitempty"`
-	FName  string `json:"fname,omitempty"`
-	Alt    string `json:"alt,omitempty"`     // another acceptable file content (overlapping appenders)
-	Partial string `json:"partial,omitempty"` // content while the background appender has not finished yet
-	Size   int    `json:"size"`
+	Kind      string `json:"kind"` // route | file
+	Redir     string `json:"redir"`
+	Pos       string `json:"pos"`
+	Stdout    string `json:"stdout"`
+	Stderr    string `json:"stderr"`
+	File      string `json:"file,omitempty"`
+	FName     string `json:"fname,omitempty"`
+	Alt       string `json:"alt,omitempty"`     // another acceptable file content (overlapping appenders)
+	Partial   string `json:"partial,omitempty"` // content while the background appender has not finished yet
+	Size      int    `json:"size"`
+	Writer    string `json:"writer,omitempty"`
+	AltStdout string `json:"alt_stdout,omitempty"` // the other acceptable order when an external program's two streams share a destination
+	AltStderr string `json:"alt_stderr,omitempty"`
 }
 
 func c33Payload(r *rand.Rand, tag string, max int) string {
@@ -48,7 +51,7 @@ func init() {
 	register(&Property{
 		ID:    "C33",
 		Level: "exploration",
-		Rule: "a generated function writes payload O to stdout then payload E to stderr (PRNG text incl. punctuation, tabs, newlines, non-ASCII; sizes 1 B .. 200 KiB quick / 2 MiB thorough); it is called with each of the 9 consistent combinations of {none,<err>,<null>} x {none,<!out>,<!null>} at the end of a chain, before `;` and before `|` (the next stage tags what it read); `|> file` and `>> file` with random previous contents, the file read back by the harness; two overlapping appenders (a background `>>` that has opened the file and waits behind a named pipe while the foreground appends to the same file: both payloads must be in the file, in either order); " +
+		Rule: "a generated function writes payload O to stdout then payload E to stderr (PRNG text incl. punctuation, tabs, newlines, non-ASCII; sizes 1 B .. 200 KiB quick / 2 MiB thorough); it (and, for a third of the small payloads, an external program writing the same two payloads) is called with each of the 9 consistent combinations of {none,<err>,<null>} x {none,<!out>,<!null>} at the end of a chain, before `;` and before `|` (the next stage tags what it read); `|> file` and `>> file` with random previous contents, the file read back by the harness; two overlapping appenders (a background `>>` that has opened the file and waits behind a named pipe while the foreground appends to the same file: both payloads must be in the file, in either order); " +
 			"oracle: the routing table of the statement with conservation (each payload appears exactly on the stream/file the table says and nowhere else); non-trivial = at least one redirection token or a file; distinct by (redirection, position, payloads)",
 		Assumptions: []string{"payloads are passed through variables and do not end in CR/LF (`out $v` strips one)", "both payloads are written by sequential commands, so O precedes E when they share a stream"},
 		Run: func(x *Ctx) {
@@ -67,44 +70,68 @@ func init() {
 					size = 5000
 				}
 				po, pe := c33Payload(r, "O", size), c33Payload(r, "E", size)
-				for _, so := range []string{"", "<err>", "<null>"} {
-					for _, se := range []string{"", "<!out>", "<!null>"} {
-						for _, pos := range []string{"end", "semicolon", "pipe"} {
-							id++
-							redir := strings.TrimSpace(so + " " + se)
-							if r.Intn(2) == 0 && so != "" && se != "" {
-								redir = se + " " + so
+				// the writer is a murex function; for a third of the small payloads also an external
+				// program (its two streams reach murex through separate descriptors, so when both are
+				// routed to one destination either order of the two payloads is accepted)
+				writers := []string{"c33oe"}
+				if rep%3 == 1 && size <= 5000 {
+					writers = append(writers, "exitsig")
+				}
+				for _, writer := range writers {
+					for _, so := range []string{"", "<err>", "<null>"} {
+						for _, se := range []string{"", "<!out>", "<!null>"} {
+							for _, pos := range []string{"end", "semicolon", "pipe"} {
+								id++
+								redir := strings.TrimSpace(so + " " + se)
+								if r.Intn(2) == 0 && so != "" && se != "" {
+									redir = se + " " + so
+								}
+								var stdoutDest, stderrDest strings.Builder // what goes to STDOUT_DEST and to the block's stderr
+								switch so {
+								case "":
+									stdoutDest.WriteString(po + "\n")
+								case "<err>":
+									stderrDest.WriteString(po + "\n")
+								}
+								switch se {
+								case "":
+									stderrDest.WriteString(pe + "\n")
+								case "<!out>":
+									stdoutDest.WriteString(pe + "\n")
+								}
+								e := c33Expect{Kind: "route", Redir: redir, Pos: pos, Stderr: stderrDest.String(), Size: len(po) + len(pe), Writer: writer}
+								block := "function c33oe { out $1; err $2 }\nfunction c33tg { <stdin> -> set s; out \"[$s]\" }\n"
+								call := "c33oe " + redir + " $c33po $c33pe"
+								altOut, altErr := stdoutDest.String(), stderrDest.String()
+								if writer == "exitsig" {
+									call = "exitsig " + redir + " oe 0 $c33po $c33pe"
+									if so == "" && se == "<!out>" {
+										altOut = pe + "\n" + po + "\n"
+									}
+									if so == "<err>" && se == "" {
+										altErr = pe + "\n" + po + "\n"
+									}
+								}
+								e.AltStderr = altErr
+								switch pos {
+								case "end":
+									block += call + "\n"
+									e.Stdout = stdoutDest.String()
+									e.AltStdout = altOut
+								case "semicolon":
+									block += call + "; out TAIL\n"
+									e.Stdout = stdoutDest.String() + "TAIL\n"
+									e.AltStdout = altOut + "TAIL\n"
+								case "pipe":
+									block += call + " | c33tg\n"
+									e.Stdout = "[" + strings.TrimSuffix(stdoutDest.String(), "\n") + "]\n"
+									e.AltStdout = "[" + strings.TrimSuffix(altOut, "\n") + "]\n"
+								}
+								exp, _ := json.Marshal(e)
+								// payloads above the 1 MiB stream limit need the harness to read while the program runs
+								cases = append(cases, &proto.Case{ID: fmt.Sprintf("c33-%d", id), Op: "prog", Block: block, Expect: exp, TimeoutMs: 60000, Drain: maxSize > 900<<10,
+									Vars: []proto.Var{{Name: "c33po", Type: "str", Value: po}, {Name: "c33pe", Type: "str", Value: pe}}})
 							}
-							var stdoutDest, stderrDest strings.Builder // what goes to STDOUT_DEST and to the block's stderr
-							switch so {
-							case "":
-								stdoutDest.WriteString(po + "\n")
-							case "<err>":
-								stderrDest.WriteString(po + "\n")
-							}
-							switch se {
-							case "":
-								stderrDest.WriteString(pe + "\n")
-							case "<!out>":
-								stdoutDest.WriteString(pe + "\n")
-							}
-							e := c33Expect{Kind: "route", Redir: redir, Pos: pos, Stderr: stderrDest.String(), Size: len(po) + len(pe)}
-							block := "function c33oe { out $1; err $2 }\nfunction c33tg { <stdin> -> set s; out \"[$s]\" }\n"
-							switch pos {
-							case "end":
-								block += "c33oe " + redir + " $c33po $c33pe\n"
-								e.Stdout = stdoutDest.String()
-							case "semicolon":
-								block += "c33oe " + redir + " $c33po $c33pe; out TAIL\n"
-								e.Stdout = stdoutDest.String() + "TAIL\n"
-							case "pipe":
-								block += "c33oe " + redir + " $c33po $c33pe | c33tg\n"
-								e.Stdout = "[" + strings.TrimSuffix(stdoutDest.String(), "\n") + "]\n"
-							}
-							exp, _ := json.Marshal(e)
-							// payloads above the 1 MiB stream limit need the harness to read while the program runs
-							cases = append(cases, &proto.Case{ID: fmt.Sprintf("c33-%d", id), Op: "prog", Block: block, Expect: exp, TimeoutMs: 60000, Drain: maxSize > 900<<10,
-								Vars: []proto.Var{{Name: "c33po", Type: "str", Value: po}, {Name: "c33pe", Type: "str", Value: pe}}})
 						}
 					}
 				}
@@ -196,7 +223,10 @@ func init() {
 				}
 				return
 			}
-			if string(run.Stdout) != e.Stdout || string(run.Stderr) != e.Stderr {
+			if e.Writer == "exitsig" {
+				x.Count("cases route external writer", 1)
+			}
+			if (string(run.Stdout) != e.Stdout && string(run.Stdout) != e.AltStdout) || (string(run.Stderr) != e.Stderr && string(run.Stderr) != e.AltStderr) {
 				what := "stdout"
 				if string(run.Stdout) == e.Stdout {
 					what = "stderr"
@@ -206,7 +236,11 @@ func init() {
 				if len(total) < len(e.Stdout)+len(e.Stderr) {
 					lost = ":bytes-lost"
 				}
-				x.Viol(fmt.Sprintf("route:%s:%s:%s%s", strings.ReplaceAll(e.Redir, " ", ""), e.Pos, what, lost), fmt.Sprintf("`c33oe %s` at position %s gave stdout=%q stderr=%q; routing table says stdout=%q stderr=%q", e.Redir, e.Pos, trunc(string(run.Stdout), 200), trunc(string(run.Stderr), 200), trunc(e.Stdout, 200), trunc(e.Stderr, 200)), c,
+				wr := ""
+				if e.Writer == "exitsig" {
+					wr = "external:"
+				}
+				x.Viol(fmt.Sprintf("route:%s%s:%s:%s%s", wr, strings.ReplaceAll(e.Redir, " ", ""), e.Pos, what, lost), fmt.Sprintf("`"+e.Writer+" %s` at position %s gave stdout=%q stderr=%q; routing table says stdout=%q stderr=%q", e.Redir, e.Pos, trunc(string(run.Stdout), 200), trunc(string(run.Stderr), 200), trunc(e.Stdout, 200), trunc(e.Stderr, 200)), c,
 					map[string]string{"stdout": trunc(string(run.Stdout), 3000), "stderr": trunc(string(run.Stderr), 3000)}, map[string]string{"stdout": trunc(e.Stdout, 3000), "stderr": trunc(e.Stderr, 3000)})
 			}
 		},
